@@ -28,7 +28,9 @@ class CCM(ResourceManager):
             key=lambda x: os.stat(os.path.join(nodefile_dir, x)).st_mtime)
         nodefile = os.path.join(nodefile_dir, nodefile_name)
 
-        nodes = self._parse_nodefile(nodefile)
+        # a configured node size supersedes the number of entries per node
+        # (some node files have one entry per node, not one per slot)
+        nodes = self._parse_nodefile(nodefile, cpn=rm_info.cores_per_node)
 
         if not rm_info.cores_per_node:
             rm_info.cores_per_node = self._get_cores_per_node(nodes)
